@@ -346,6 +346,28 @@ def share_or_copy(fb, rep):
             rep.ok(R, "force_full_clone sets receiver_generation = Generation::disjoint()")
         else:
             rep.violation(R, "force-full-clone", "force_full_clone no longer sets the disjoint generation", f.where())
+    # (after seed C13-4) every share-instead-of-copy decision *inside* the cloner asks `receiver_generation` — the field that
+    # force_full_clone overrides when the two threads cannot share — never the destination heap's own generation
+    CL = "gluon_vm::value::Cloner"
+    n_dec = 0
+    for bid, b in fb.bodies.items():
+        if not bid.startswith("gluon_vm::value::Cloner::<'t>::"):
+            continue
+        for c in b.calls():
+            if not c.res.endswith("Generation::can_contain_values_from") or not c.args:
+                continue
+            n_dec += 1
+            src = flow.sources(b, c.args[0], depth=10)
+            # closures see the cloner through an upvar: the field read still shows as a field of Cloner
+            from_field = ("field", CL, "receiver_generation") in src
+            from_gc = flow.has_call(src, lambda x: x.endswith("Gc::generation"))
+            if from_field and not from_gc:
+                rep.ok(R, "%s: share-or-copy asks Cloner.receiver_generation" % bid)
+            else:
+                rep.violation(R, "share-decision-ignores-forced-clone|%s" % bid.split("::{closure")[0].rsplit("::", 1)[-1], "%s decides to share a value instead of copying it from %s, not from "
+                              "Cloner.receiver_generation: the decision ignores force_full_clone, so values are shared between threads that cannot share (siblings, unrelated VMs)"
+                              % (bid, "the destination heap's own generation (Gc::generation)" if from_gc else "another source"), c.where())
+    rep.floor(R, "share-or-copy decisions inside the cloner", n_dec, 1)
 
 
 _REPR_ELEM = {}
